@@ -31,4 +31,3 @@ func BoundedEnd() {
 		boundedTimer = nil
 	}
 }
-
